@@ -5,7 +5,7 @@ import hirq, anchors, absx, sem, driver
 EXPLANATION = ("K1 pairing: every removal of a routing entry in the driver loop (result delivered, search done / receiver gone, scrub, "
                "abandon) is followed, on every enumerated path of its arm and before the arm is left by any exit (falling out, continue, break, return), by the release of the same message ID from the in-use set - unless the same sender is put back; K2 the "
                "Abandon request's own, never-answered ID is released in its arm; K3 Abandon: request [APPLICATION 16] INTEGER msgid and "
-               "LdapOp::Abandon(msgid) carry the same parameter, and the arm drops both routing entries of that ID (which fails the "
+               "LdapOp::Abandon(msgid) carry the same parameter, and on every path of the request arm an Abandon can take - also one that leaves the arm before the kind of operation is looked at - the request is written to the transport and both routing entries of that ID are dropped (which fails the "
                "waiting caller); K4 every routing map has a removal site for each terminal event class (response, scrub, abandon); "
                "K6 a stream finished before its end scrubs its own ID. Not decided: quiescence over arbitrary histories as a runtime "
                "fact; futures dropped mid-flight.")
